@@ -143,3 +143,44 @@ Proof.
   intros cfg ops y sub pre e post Hn Ho Hk. apply realm_event_only_to_subscriber_proof; auto.
   now apply gate_unsub_id_no_authz.
 Qed.
+
+(** ** The monitor, unfolded (for the statements file) *)
+Lemma sm_step_unfold : forall y sub h cur e,
+    sm_step y sub (h, cur) e =
+    if resets y sub cur e then Some (false, next_cur cur e)
+    else if is_subd y sub e then Some (true, next_cur cur e)
+    else if is_evt y sub e then (if h then Some (true, next_cur cur e) else None)
+    else Some (h, next_cur cur e).
+Proof. reflexivity. Qed.
+
+Lemma resets_unfold : forall y sub cur e,
+    resets y sub cur e =
+    match e with
+    | EIn (ODrop x) => N.eqb x y
+    | EIn _ => false
+    | EOut (x, m) =>
+        N.eqb x y &&
+        (match m with RAbort _ _ | RGoodbye _ _ => true | _ => false end ||
+         match m, cur with
+         | RUnsubscribed q, Some (OMsg x' (CUnsubscribe q' s) _) => N.eqb x' y && N.eqb q' q && N.eqb s sub
+         | _, _ => false
+         end)
+    end.
+Proof.
+  intros y sub cur e. destruct e as [o|[x m]]; [reflexivity|].
+  unfold resets, out_resets, is_end, unsub_acked. cbn [fst snd].
+  destruct m; reflexivity.
+Qed.
+
+Lemma is_subd_unfold : forall y sub e,
+    is_subd y sub e = match e with EOut (x, RSubscribed _ s) => N.eqb x y && N.eqb s sub | _ => false end.
+Proof. intros y sub [o|[x m]]; [reflexivity|]. unfold is_subd, out_subd. cbn [fst snd]. destruct m; reflexivity. Qed.
+
+Lemma is_evt_unfold : forall y sub e,
+    is_evt y sub e = match e with EOut (x, REvent s _ _ _ _) => N.eqb x y && N.eqb s sub | _ => false end.
+Proof. intros y sub [o|[x m]]; [reflexivity|]. unfold is_evt, out_evt. cbn [fst snd]. destruct m; reflexivity. Qed.
+
+Lemma quiet_for_unfold : forall y sub cur tr,
+    quiet_for y sub cur tr =
+    match tr with [] => True | e :: rest => resets y sub cur e = false /\ quiet_for y sub (next_cur cur e) rest end.
+Proof. intros y sub cur [|e tr]; reflexivity. Qed.
